@@ -1,0 +1,81 @@
+//go:build verif
+
+package align
+
+// Add-only accessors used by the verification harness in /verif.
+// Compiled only with -tags verif; they expose unexported tables and pure
+// helpers read-only (maps are copied) and change no behaviour.
+
+func VerifComplementTable() map[uint8]uint8 {
+	m := make(map[uint8]uint8, len(complement_nuc_mapping))
+	for k, v := range complement_nuc_mapping {
+		m[k] = v
+	}
+	return m
+}
+
+func VerifGeneticCode(code int) (map[string]uint8, error) {
+	g, err := geneticCode(code)
+	if err != nil {
+		return nil, err
+	}
+	m := make(map[string]uint8, len(g))
+	for k, v := range g {
+		m[k] = v
+	}
+	return m, nil
+}
+
+func VerifTranslateCodon(n1, n2, n3 uint8, code int) (uint8, error) {
+	g, err := geneticCode(code)
+	if err != nil {
+		return 0, err
+	}
+	return translateCodon(n1, n2, n3, g), nil
+}
+
+func VerifIupacToInt() map[uint8]uint8 {
+	m := make(map[uint8]uint8, len(iupacToInt))
+	for k, v := range iupacToInt {
+		m[k] = v
+	}
+	return m
+}
+
+func VerifIupacCodeByte() [][]uint8 {
+	r := make([][]uint8, len(iupacCodeByte))
+	for i, l := range iupacCodeByte {
+		r[i] = append([]uint8{}, l...)
+	}
+	return r
+}
+
+func VerifDnaMatrixPos() map[uint8]int {
+	m := make(map[uint8]int, len(dna_to_matrix_pos))
+	for k, v := range dna_to_matrix_pos {
+		m[k] = v
+	}
+	return m
+}
+
+func VerifProtMatrixPos() map[uint8]int {
+	m := make(map[uint8]int, len(prot_to_matrix_pos))
+	for k, v := range prot_to_matrix_pos {
+		m[k] = v
+	}
+	return m
+}
+
+func verifCopyMat(src [][]float64) [][]float64 {
+	r := make([][]float64, len(src))
+	for i, l := range src {
+		r[i] = append([]float64{}, l...)
+	}
+	return r
+}
+
+func VerifDnaFullMatrix() [][]float64  { return verifCopyMat(dnafull_subst_matrix) }
+func VerifBlosum62Matrix() [][]float64 { return verifCopyMat(blosum62_subst_matrix) }
+
+func VerifStdAminoAcids() []uint8  { return append([]uint8{}, stdaminoacid...) }
+func VerifStdNucleotides() []uint8 { return append([]uint8{}, stdnucleotides...) }
